@@ -1,6 +1,7 @@
 package harness
 
 import (
+	"bytes"
 	"encoding/json"
 	"fmt"
 
@@ -74,6 +75,61 @@ func osapLayers(tier string) []Layer {
 	}
 }
 
+// NestedPrefixes is the family of texts P_k s_k P_(k-1) s_(k-1) ... P_1 s_1 T: P_j are
+// prefixes of one base word, longest first, separated by distinct letters, and T
+// is the first t letters of the base word. The last position then has k match
+// candidates of decreasing length at decreasing distance (one edge per level of
+// the LCP-interval tree), and which of them is cheapest depends on t.
+func NestedPrefixes() InputSet {
+	return InputSet{"nested prefixes: k in {4,5,6,7} levels, shortest prefix 2..4 letters, final copy of 2..k+4 letters", func(f func([]byte)) {
+		base := []byte("abcdefghijklmnop")
+		seps := []byte("QRSTUVWXYZ")
+		for k := 4; k <= 7; k++ {
+			for c := 2; c <= 4; c++ {
+				var head []byte
+				for j := k; j >= 1; j-- {
+					head = append(head, base[:c+j-1]...)
+					head = append(head, seps[j])
+				}
+				for t := 2; t <= c+k; t++ {
+					f(append(append([]byte(nil), head...), base[:t]...))
+				}
+			}
+		}
+	}}
+}
+
+func osapCfgs(geos []lz.BufConfig, pairs [][2]int) func() []PCfg {
+	return func() []PCfg {
+		var out []PCfg
+		for _, bc := range geos {
+			for _, p := range pairs {
+				if pc, ok := mkCfg("OSAP", Build("OSAP", bc, map[string]int{"MinMatchLen": p[0], "MaxMatchLen": p[1]})); ok {
+					out = append(out, pc)
+				}
+			}
+		}
+		return out
+	}
+}
+
+// osapExtraLayers: many edges per position (nested prefixes), and matches longer than the default MaxMatchLen.
+func osapExtraLayers(tier string) []Layer {
+	m := Menu{WriteChunks: true, StopEarly: true}
+	wide := []lz.BufConfig{{BufferSize: 128, WindowSize: 128, BlockSize: 128}, {BufferSize: 128, WindowSize: 128, BlockSize: 16}}
+	long := []lz.BufConfig{{BufferSize: 1024, WindowSize: 1024, BlockSize: 1024}}
+	longIn := InputSet{"x?a^600, (ab)^300, x(abc)^200", func(f func([]byte)) {
+		f(bytes.Repeat([]byte("a"), 600))
+		f(append([]byte("x"), bytes.Repeat([]byte("a"), 600)...))
+		f(bytes.Repeat([]byte("ab"), 300))
+		f(append([]byte("x"), bytes.Repeat([]byte("abc"), 200)...))
+	}}
+	return []Layer{
+		{Name: "osap-nested", Kinds: []string{"OSAP"}, CfgsFn: osapCfgs(wide, [][2]int{{2, 273}, {3, 273}, {4, 273}, {2, 4}}), Inputs: NestedPrefixes(), Menu: m, Bound: 1, CfgPerShard: 2},
+		{Name: "osap-longmatch", Kinds: []string{"OSAP"}, CfgsFn: osapCfgs(long, [][2]int{{2, 274}, {2, 1000}, {3, 600}}), Inputs: longIn, Menu: m, Bound: 0, CfgPerShard: 1},
+	}
+}
+
 // wideOnly keeps the geometries whose window, buffer and block all span the input.
 func wideOnly(pc PCfg) bool {
 	bc := pc.Config().BufConfig()
@@ -84,11 +140,13 @@ func wideOnly(pc PCfg) bool {
 func init() {
 	register(&Check{
 		ID:     "C11",
-		Shards: func(tier string) []engine.Shard { return parserShards("C11", osapLayers(tier), OracleC11) },
+		Shards: func(tier string) []engine.Shard {
+			return parserShards("C11", append(osapExtraLayers(tier), osapLayers(tier)...), OracleC11)
+		},
 		Replay: func(raw json.RawMessage, col *engine.Collector) error {
 			return replayParser("C11", raw, OracleC11, col)
 		},
-		Bounds:      func(tier string) map[string]any { return layerBounds(osapLayers(tier)) },
+		Bounds:      func(tier string) map[string]any { return layerBounds(append(osapExtraLayers(tier), osapLayers(tier)...)) },
 		Rule:        ruleParser,
 		Explanation: "cost of every flags-0 block of OSAP equals the optimum of an independent O(n*window*maxlen) dynamic program over literal and match edges on the same buffer contents; XZCost is re-implemented in the reference and cross-checked against lz.XZCost",
 		StatesNote:  "state = OSAP parser state hash (buffer, W, Off, edge bookkeeping); transition = one API call on the real parser",
